@@ -132,6 +132,8 @@ def build_cases(ctx: Ctx, n_random: int, sizes: list[int], with_corpus: bool, mu
         # the learner is not sound there); C05's clauses are stated for every emitted file
         for d in pvlib.enumerate_bare_breaks():
             defs.append({"kind": "f_adjacent", "blk": d})
+        for d in pvlib.enumerate_staged_rejoins():
+            defs.append({"kind": "f_adjacent", "blk": d})
     for _ in range(n_random):
         defs.append({"kind": "random", "blk": pvlib.gen_definition(r, r.choice(sizes))})
     if multi_start:
